@@ -85,9 +85,9 @@ theorem verdict_sound_for_every_history (ops : List BAOp) (d : Nat) (hok : ∀ b
 
 /-! ### tie by translation: the source's own leaf logic (regenerated into SV/Generated/Funcs.lean on every run) IS the model's -/
 theorem source_expiry_test_is_the_models (now : Nat) (e : Entry) :
-    decide (now - e.timestamp > e.span) = Gen.sweepExpired ((now - e.timestamp : Nat) : Int) e.span := GenProofs.sweepExpired_eq now e
+    decide (now - e.timestamp > e.span) = Gen.sweepExpired (time_Since_element_timestamp := ((now - e.timestamp : Nat) : Int)) (element_span := e.span) := GenProofs.sweepExpired_eq now e
 /-- the span kept by an Upsert of a present key: the source's test (`existing.span < duration`) gives the model's maximum -/
 theorem source_upsert_span_is_the_models (stored given : Nat) :
-    max stored given = (if Gen.upsertExtendsSpan stored given then given else stored) := GenProofs.upsert_span_eq_source stored given
+    max stored given = (if Gen.upsertExtendsSpan (existing_span := stored) (duration := given) then given else stored) := GenProofs.upsert_span_eq_source stored given
 
 end SV.Props.C18
